@@ -252,6 +252,7 @@ func Universe(o UniverseOpts) *Schema {
 			f("e", N("Color")), f("bo", N("Boolean")), f("f", N("Float")),
 			f("kid", N("A")), f("peer", N("B")), f("other", N("C")),
 			f("kids", L(N("A"))), f("peers", L(N("B"))), f("ll", L(L(N("A")))),
+			m("meet", N("String")), // a resolver that waits until every request that selects it has arrived in it (Run.OnMeet)
 			f("ghost", N("String")), // declared in the schema but served by NO Go field or method of the reflection structs (null elsewhere)
 			f("vkids", L(N("A"))), // reflection: a slice of struct VALUES ([]A), every other object edge is a pointer
 			f("named", N("Named")), f("nameds", L(N("Named"))),
